@@ -2,7 +2,7 @@
    (pointers are addresses, NULL = 0, sizes are size_t values) -> program returning
    the list [return value; extra results...]. *)
 From Coq Require Import List ZArith Bool.
-From SC Require Import ModQuery ModWstr Base Cfg Comb ModStr ModMem ModTok ModTs ModSearch ModConv.
+From SC Require Import ModQuery ModWstr ModEnv Base Cfg Comb ModStr ModMem ModTok ModTs ModSearch ModConv.
 Import ListNotations.
 Local Open Scope Z_scope.
 Local Open Scope prog_scope.
@@ -19,7 +19,7 @@ Inductive fn :=
 | F_mbstowcs_s_u8 | F_mbstowcs_s_c | F_wcstombs_s_u8 | F_wcstombs_s_c | F_wcrtomb_s_u8 | F_wcrtomb_s_c | F_wctomb_s_u8 | F_wctomb_s_c
 | F_strcmp_s | F_strcasecmp_s | F_memcmp_s | F_strchr_s | F_strrchr_s | F_memchr_s | F_memrchr_s
 | F_strspn_s | F_strcspn_s | F_strpbrk_s | F_strprefix_s | F_strfirstdiff_s | F_strfirstsame_s | F_wcsnlen_s
-| F_wcscat_s | F_wcsncpy_s | F_wcsncat_s.
+| F_wcscat_s | F_wcsncpy_s | F_wcsncat_s | F_getenv_s.
 
 Definition arg (l : list Z) (i : nat) : Z := nth i l 0.
 Definition ret1 (p : prog Z) : prog (list Z) := r <- p ;; Ret [r].
@@ -75,6 +75,7 @@ Definition run_fn (c : cfg) (f : fn) (a : list Z) : prog (list Z) :=
   | F_wcscat_s => ret1 (wcscat_s c (arg a 0) (arg a 1) (arg a 2) (arg a 3))
   | F_wcsncpy_s => ret1 (wcsncpy_s c (arg a 0) (arg a 1) (arg a 2) (arg a 3) (arg a 4) (arg a 5))
   | F_wcsncat_s => ret1 (wcsncat_s c (arg a 0) (arg a 1) (arg a 2) (arg a 3) (arg a 4) (arg a 5))
+  | F_getenv_s => ret1 (getenv_s c (arg a 0) (arg a 1) (arg a 2) (arg a 3) (arg a 4) (arg a 5))
   end.
 
 (* what the drivers call: configuration, allocation-failure oracle, function, arguments, memory *)
